@@ -15,5 +15,5 @@ for p in $(python3 -c "import json;print(' '.join(c['property_id'] for c in json
   fi
 done
 rm -rf "$ev"
-git -C /repo checkout -- .
+git -C /repo checkout -- . ; git -C /repo clean -fdq
 echo "alarms=$alarms"
